@@ -103,3 +103,18 @@ Proof.
   intros e Hin. destruct (table_entries_ok e Hin) as [ms [H1 [H2 [H3 _]]]]. exists ms. split; [exact H1|].
   intros pos kw b Hb. exact (full_path yof _ _ _ _ _ H2 H3 Hb).
 Qed.
+
+(* ---- method NAME arguments of the optimizers ---- *)
+From PB Require Import C16.MethodCase C16.MethodCaseProofs.
+
+Lemma method_uses_checked : method_uses_ok method_funcs method_uses = true.
+Proof. vm_compute. reflexivity. Qed.
+
+Theorem table_method_case : forall c, In c method_uses ->
+  forall s t, lower s = lower t -> eval_use c s = eval_use c t /\ attr_use c s = attr_use c t.
+Proof.
+  intros c Hin s t Hl. apply use_case_insensitive; [|exact Hl].
+  assert (H := method_uses_checked). unfold method_uses_ok in H.
+  apply andb_true_iff in H. destruct H as [H _]. apply andb_true_iff in H. destruct H as [H _].
+  rewrite forallb_forall in H. apply H. exact Hin.
+Qed.
